@@ -24,6 +24,10 @@ Definition crun_orig := crun recent_cap false completing_gen nonfinal_gen.
 (* a notification handler that buffers the parts of unknown transactions after it has left the critical section *)
 Definition urun_gen := urun recent_cap consumer_keeps_early_parts completing_gen nonfinal_gen.
 
+(* the claim about report parts received before the response is made for this many parts; the buffer found in the
+   source may be larger, not smaller *)
+Definition pinned_recent_cap : nat := 50%nat.
+
 (* what the generated constants have to satisfy for the theorems (checked by computation) *)
 Definition gen_ok : bool :=
   forallb (fun s => implb (final s) (st_eqb (dresp_gen s) s)) all_states
@@ -31,7 +35,8 @@ Definition gen_ok : bool :=
   && forallb (fun s => implb (completing_gen s) (final s)) all_states
   && forallb (fun s => Bool.eqb (nonfinal_gen s) (negb (final s))) all_states
   && consumer_keeps_early_parts && txid_under_lock && consumer_state_under_lock
-  && negb sco_full_queue_loses_wait
+  && negb sco_full_queue_loses_wait && consumer_restart_fresh_manager
+  && (pinned_recent_cap <=? recent_cap)%nat
   && (0 <? Z.of_nat recent_cap) && (0 <? Z.of_nat sco_queue_cap).
 
 (* ---- provider correspondence.  The harness steps the real worker with two operations: a request, or
